@@ -1392,7 +1392,7 @@ for _pid, _txt in {
     "C02": "Where the property is false of pyxis (open findings F4b, F9) the model is false too: C02_vftable_named_type_replaced_refuted_F4b, C02_void_by_value_refuted_F9.",
     "C07": "Open findings F24 and F10 are theorems about the model: C07_inherited_rename_collides_refuted_F24, C07_receiverless_forward_refuted_F10.",
     "C08": "Open findings F12a-c are theorems about the model: C08_enum_without_variants_refuted_F12a, C08_enum_struct_base_refuted_F12b, C08_enum_duplicate_discriminant_refuted_F12c (F2: C08_range_refuted).",
-    "C09": "Without the two side conditions the claim is refuted on the model with concrete schedules: C09_order_dependence_F4b_refuted (different verdicts at width 4, different files at width 8), C09_order_dependence_F7b_refuted.",
+    "C09": "Without the two side conditions the claim is refuted on the model with concrete schedules: C09_order_dependence_F4b_refuted (different verdicts at width 4, different files at width 8), C09_order_dependence_F7b_refuted, C09_order_dependence_F25_refuted (accepted under one schedule, the no-progress error under another).",
     "C13": "Each open finding of this property is a witness theorem on the model (accepted input, emitted item that rustc rejects): C13_*_refuted_F12a/F12b/F12c/F13/F14/F19/F21/F10/F24.",
     "C14": "Without collision_free the claim is refuted on the model: C14_vftable_named_type_replaced_refuted_F4b (open finding F4b).",
 }.items():
